@@ -1,8 +1,9 @@
 (* C05 stage 1: byte-level model of v2/pkg/lexer/lexer.go (Lexer.Read) and of
    astparser.Tokenizer.Tokenize.  Mirrors the Go control flow branch by branch, quirks included
-   (NUL is the EOF sentinel; any unclassified byte starts an identifier; '-' is an identifier
+   (NUL is the EOF sentinel, everywhere; any unclassified byte starts an identifier; '-' is an identifier
    character after the first byte; a sign is only consumed after a fractional part; strings end
-   at EOF/NUL/CR/LF as well as at a quote).  No proofs here.
+   at EOF/NUL/CR/LF as well as at a quote).  State of the Go code: with the repairs
+   c05_fix_rt-nul-in-string and c15_fix_block-quote-next-to-whitespace.  No proofs here.
 
    Positions: Go keeps InputPosition as int and stores it into the token as uint32; every such
    conversion is written [u32], the block-string adjustments [Start += uint32(..)] and
@@ -99,12 +100,14 @@ Record cur := { c_rest : bytes; c_pos : N; c_line : N; c_col : N }.
 Definition init (b : bytes) : cur := {| c_rest := b; c_pos := 0; c_line := 1; c_col := 1 |}.
 
 (* readRune: at the end of input returns EOF (0) without moving; a NUL byte also reads as EOF
-   but IS consumed *)
+   and, since the repair of rt-nul-in-string, is NOT consumed either: it ends the input for every
+   reader (the pre-repair readRune, which consumed it, is in PreFix.v) *)
 Definition read_rune (c : cur) : byte * cur :=
   match c_rest c with
   | [] => (0, c)
   | r :: t =>
-    if r =? r_lf then (r, {| c_rest := t; c_pos := c_pos c + 1; c_line := c_line c + 1; c_col := 1 |})
+    if r =? 0 then (0, c)
+    else if r =? r_lf then (r, {| c_rest := t; c_pos := c_pos c + 1; c_line := c_line c + 1; c_col := 1 |})
     else (r, {| c_rest := t; c_pos := c_pos c + 1; c_line := c_line c; c_col := c_col c + 1 |})
   end.
 
@@ -179,14 +182,24 @@ Fixpoint sstring_loop (l : bytes) (pos line col : N) (escaped : bool) : cur * en
   end.
 
 (* readBlockString, after SetStart.  Returns the cursor, the raw end marker (before the
-   [End -= whitespaceCount] adjustment), leadingWhitespaceToken and whitespaceCount. *)
-Fixpoint bstring_loop (l : bytes) (pos line col : N) (escaped : bool) (qc ws : N) (reached : bool) (lead : N)
+   [End -= whitespaceCount] adjustment), leadingWhitespaceToken and whitespaceCount.
+   Since the repair of block-quote-next-to-whitespace the loop starts with
+     if quoteCount != 0 && next != QUOTE { reached = true (lead = ws if it was not); ws = 0 }
+   ([quotes_content]: quotes that did not close the string are content) and a backslash sets
+   reachedFirstNonWhitespace like any other character.  The pre-repair loop is in PreFix.v. *)
+Definition quotes_content (qc : N) (r : byte) (ws : N) (reached : bool) (lead : N) : N * bool * N :=
+  if negb (qc =? 0) && negb (r =? r_quote) then (0, true, if reached then lead else ws) else (ws, reached, lead).
+
+Fixpoint bstring_loop (l : bytes) (pos line col : N) (escaped : bool) (qc ws0 : N) (reached0 : bool) (lead0 : N)
   : cur * endm * N * N :=
   match l with
-  | [] => ({| c_rest := []; c_pos := pos; c_line := line; c_col := col |}, (u32 pos, line, col), lead, ws)
+  | [] =>
+    let '(ws, _, lead) := quotes_content qc 0 ws0 reached0 lead0 in
+    ({| c_rest := []; c_pos := pos; c_line := line; c_col := col |}, (u32 pos, line, col), lead, ws)
   | r :: t =>
     let c' := snd (read_rune {| c_rest := l; c_pos := pos; c_line := line; c_col := col |}) in
     let p' := c_pos c' in let l' := c_line c' in let k' := c_col c' in
+    let '(ws, reached, lead) := quotes_content qc r ws0 reached0 lead0 in
     if (r =? r_space) || (r =? r_tab) || (r =? r_cr) || (r =? r_lf) then
       bstring_loop t p' l' k' false 0 (ws + 1) reached lead
     else if r =? 0 then (c', (u32 p', l', k'), lead, ws)
@@ -194,7 +207,7 @@ Fixpoint bstring_loop (l : bytes) (pos line col : N) (escaped : bool) (qc ws : N
       (if escaped then bstring_loop t p' l' k' false qc ws reached lead
        else if qc + 1 =? 3 then (c', (sub32 p' 3, l', k'), lead, ws)
        else bstring_loop t p' l' k' escaped (qc + 1) ws reached lead)
-    else if r =? r_backslash then bstring_loop t p' l' k' (negb escaped) 0 0 reached lead
+    else if r =? r_backslash then bstring_loop t p' l' k' (negb escaped) 0 0 true (if reached then lead else ws)
     else if reached then bstring_loop t p' l' k' false 0 0 true lead
     else bstring_loop t p' l' k' false 0 0 true ws
   end.
@@ -270,8 +283,7 @@ Definition read (c0 : cur) : token * cur :=
       (mk_tok KIdent s ls cs (here c2), c2)
   end.
 
-(* Tokenizer.Tokenize: Read until the EOF keyword (the end of input or a NUL byte outside a
-   string/comment).  [None] = out of fuel; [tokenize_total] shows it never happens. *)
+(* Tokenizer.Tokenize: Read until the EOF keyword (the end of input or a NUL byte).  [None] = out of fuel; [tokenize_total] shows it never happens. *)
 Fixpoint tokenize_fuel (fuel : nat) (c : cur) : option (list token) :=
   match fuel with
   | O => None
